@@ -108,6 +108,30 @@ func init() {
 					int(ctx.MinExponent) + 1, int(ctx.MinExponent), int(ctx.MinExponent) - 1, int(ctx.MinExponent) - p/2, etiny + 1, etiny, etiny - 1, etiny - 40})
 				c.X.Exponent += int32(deg * (target - rootAdj))
 			}
+			if r.coin(6) && p >= 2 {
+				// a root a hair below or above a j-digit number (j < Precision) placed so that exactly j digits lie at
+				// or above Etiny: the result is subnormal and a directed rounding of an iterate that is off by a
+				// little lands on the wrong side of that number
+				deg := 2
+				if op == "Cbrt" {
+					deg = 3
+				}
+				j := r.rangeI(1, p-1)
+				k := pow10(j) // 10^j, or a j-digit number
+				if r.coin(50) {
+					k = r.coeffShape(j)
+					if k.Sign() == 0 {
+						k = big.NewInt(7)
+					}
+				}
+				pad := deg * r.rangeI(2, p+6)
+				cf := new(big.Int).Exp(k, big.NewInt(int64(deg)), nil)
+				cf.Mul(cf, pow10(pad))
+				cf.Add(cf, big.NewInt(int64(r.pick([]int{-1, 1, -3, 2}))))
+				etiny := int(ctx.MinExponent) - p + 1
+				// root ~ k * 10^(e/deg + pad/deg): its last kept digit (units of k) at Etiny
+				c.X = mkDec(apd.Finite, op == "Cbrt" && r.coin(40), cf, deg*etiny-pad)
+			}
 			if r.coin(8) {
 				c.X = r.genSpecial()
 			}
